@@ -1,6 +1,5 @@
 /* C11: qualified types are in normal form.  type_factory::get_qualified on the lowered real code; the table's insert is used
    through its contract (insert_stub.h), with the real comparator and the real element constructor. */
-#include "insert_stub.h"
 typedef struct S_ZTSN3ipr4impl12type_factoryE factory_t;
 typedef struct S_ZTSN3ipr4TypeE type_t;
 typedef struct S_ZTSN3ipr9QualifiedE iqual_t;                      /* interface class ipr::Qualified */
@@ -13,8 +12,9 @@ typedef __typeof__(((factory_t*)0)->f_qualifieds) table_t;
 #define IFACE_AS_TYPE(q) (&(q)->__b0.__b0.__b0)                   /* ipr::Qualified -> ipr::Type */
 #define QUALIFIED_CODE @{enum:ipr::Category_code::Qualified}
 
-static qual_t* W; static qual_t* OTHER; static int ins_calls;
-DEFINE_INSERT_STUB(@{insert}, table_t, qnode_t, qual_t, rep_t, struct S_ZTSN3ipr4impl14binary_compareE, @{cmp_elem_key}, @{make_node}, W, OTHER, ins_calls)
+/* the insert contract stub (W0 = witness element, LAST0 = element returned by the last call) and the macros CMP0 / COMP0_T
+   naming the comparator clang resolved inside insert are generated from the JSON index (lib/gen.py) */
+#define W W0
 
 /* foreign operand types: an arbitrary type node that is not a Qualified, and arbitrary earlier Qualified nodes built by
    the real constructor (so their accessors are the real final overriders, reached through dynamic dispatch) */
@@ -34,10 +34,8 @@ void h_get_qualified(void)
   factory_t* f = malloc(sizeof *f); __CPROVER_assume(f != 0);
   type_t* u = plain_type(); type_t* u2 = plain_type();
   /* any earlier normal-form node as witness: qualifiers non-empty, main variant not qualified (table invariant, L-history) */
-  unsigned long qw = nondet_ulong(), qo = nondet_ulong(); __CPROVER_assume(qw != 0 && qo != 0);
+  unsigned long qw = nondet_ulong(); __CPROVER_assume(qw != 0);
   W = nondet_bool() ? earlier_qualified(qw, nondet_bool() ? u : u2) : 0;
-  OTHER = nondet_bool() ? earlier_qualified(qo, nondet_bool() ? u : u2) : 0;
-  if (W && OTHER) __CPROVER_assume(!(quals_of(AS_IFACE(W)) == quals_of(AS_IFACE(OTHER)) && main_variant_of(AS_IFACE(W)) == main_variant_of(AS_IFACE(OTHER))));
   /* the request: qualify either a plain type or an already qualified one */
   unsigned long q = nondet_ulong();
   _Bool nested = nondet_bool();
@@ -65,12 +63,12 @@ void h_get_qualified(void)
 void h_cmp_order(void)
 {
   type_t* ts[3]; for (int i = 0; i < 3; i++) ts[i] = plain_type();
-  qual_t* e[3]; rep_t k[3]; struct S_ZTSN3ipr4impl14binary_compareE c = {0};
+  qual_t* e[3]; rep_t k[3]; COMP0_T c; __builtin_memset(&c, 0, sizeof c);
   for (int i = 0; i < 3; i++) { k[i].f_first = nondet_ulong(); int j = nondet_int(); __CPROVER_assume(0 <= j && j < 3); k[i].f_second = ts[j]; e[i] = earlier_qualified(k[i].f_first, k[i].f_second); }
   #define SGN(x) ((x) < 0 ? -1 : (x) > 0 ? 1 : 0)
   #define KEQ(i, j) (k[i].f_first == k[j].f_first && k[i].f_second == k[j].f_second)
-  int c01 = @{cmp_elem_key}(&c, e[0], &k[1]), c10 = @{cmp_elem_key}(&c, e[1], &k[0]), c12 = @{cmp_elem_key}(&c, e[1], &k[2]), c02 = @{cmp_elem_key}(&c, e[0], &k[2]);
-  __CPROVER_assert(@{cmp_elem_key}(&c, e[0], &k[0]) == 0, "CMP-ORDER: an element compares equal to its own key (reflexive, CTOR-KEY)");
+  int c01 = CMP0(&c, e[0], &k[1]), c10 = CMP0(&c, e[1], &k[0]), c12 = CMP0(&c, e[1], &k[2]), c02 = CMP0(&c, e[0], &k[2]);
+  __CPROVER_assert(CMP0(&c, e[0], &k[0]) == 0, "CMP-ORDER: an element compares equal to its own key (reflexive, CTOR-KEY)");
   __CPROVER_assert(SGN(c01) == -SGN(c10), "CMP-ORDER: antisymmetric through the key projection");
   __CPROVER_assert(!(c01 < 0 && c12 < 0) || c02 < 0, "CMP-ORDER: transitive");
   __CPROVER_assert(!(c01 == 0 && c12 == 0) || c02 == 0, "CMP-ORDER: equality is transitive");
